@@ -17,7 +17,9 @@ import (
 	"time"
 
 	"github.com/kubewharf/kubebrain/pkg/backend"
+	"github.com/kubewharf/kubebrain/pkg/backend/coder"
 	"github.com/kubewharf/kubebrain/pkg/storage"
+	imetrics "github.com/kubewharf/kubebrain/pkg/storage/metrics"
 
 	"kbverif/lib"
 )
@@ -29,6 +31,7 @@ var keyPool = []string{"/registry/pods/a", "/registry/pods/b", "/registry/leases
 	"/registry/skip/sub/y", "/registryfoo/z", "/other/k", "/registry/pods/c", "/registry/pods.archive/q", "/registry/leases.k8s.io/m"}
 
 var tab = lib.CsNewIntern(keyPool)
+var cd = coder.NewNormalCoder()
 
 type config struct {
 	name    string
@@ -103,11 +106,17 @@ type fault struct {
 
 type envWrite struct {
 	at int
-	w  lib.CsWrite
+	// idxKey: instead of a fixed call number, the request is placed exactly before the pass's next delete call on
+	// the INDEX record of this key, whichever kind of delete that is
+	idxKey []byte
+	w      lib.CsWrite
 }
 
 type runSpec struct {
 	engine string
+	// metrics: the production stack - the metrics wrapper (pkg/storage/metrics) sits ABOVE the failing engine, so the
+	// compactor sees a delete error only if the wrapper passes it on
+	metrics bool
 	req    string // "R" | "zero" | "above"
 	R      uint64
 	faults []fault
@@ -303,6 +312,7 @@ func (w *worker) runVariant(cfg config, pre []lib.KV, preDec []lib.CsRec, hist u
 	for _, f := range rs.faults {
 		faultAt[f.at] = f.kind
 	}
+	firedIdx := map[int]bool{}
 	wrap := &lib.Wrap{KvStorage: inner}
 	wrap.Before = func(kind string, key []byte) error {
 		if kind != "del" && kind != "delcur" {
@@ -324,7 +334,14 @@ func (w *worker) runVariant(cfg config, pre []lib.KV, preDec []lib.CsRec, hist u
 		adds := "[]"
 		var addl []string
 		for mi, e := range rs.env {
-			if e.at == i {
+			hit := e.idxKey == nil && e.at == i
+			if e.idxKey != nil && !firedIdx[mi] {
+				if uk, rev, derr := cd.Decode(key); derr == nil && rev == 0 && bytes.Equal(uk, e.idxKey) {
+					hit = true
+					firedIdx[mi] = true
+				}
+			}
+			if hit {
 				wr := resolveWrite(be, e.w, mi*5+i, hist)
 				class, hdr, synced := be.Do(wr)
 				if !synced {
@@ -358,7 +375,11 @@ func (w *worker) runVariant(cfg config, pre []lib.KV, preDec []lib.CsRec, hist u
 		ocs = append(ocs, lib.Pair(adds, "OOk"))
 		return nil
 	}
-	sw.set(wrap)
+	var top storage.KvStorage = wrap
+	if rs.metrics {
+		top = imetrics.NewKvStorage(wrap, &lib.NopMetrics{})
+	}
+	sw.set(top)
 
 	req := rs.R
 	switch rs.req {
@@ -418,7 +439,7 @@ func (w *worker) runVariant(cfg config, pre []lib.KV, preDec []lib.CsRec, hist u
 		}
 		before = doReads(beA, reads)
 		beforeCoq = lib.Some(lib.List(before))
-		sw.set(wrap)
+		sw.set(top)
 	}
 	if !sameStrings(before, after) {
 		afterCoq = lib.Some(lib.List(after))
@@ -454,13 +475,16 @@ func (w *worker) runVariant(cfg config, pre []lib.KV, preDec []lib.CsRec, hist u
 	for _, e := range executed {
 		envJ = append(envJ, map[string]interface{}{"op": e.w.Op, "key": string(e.w.Key), "rev": e.w.Rev, "res": e.class, "hdr": e.hdr})
 	}
-	vo.json = map[string]interface{}{"engine": rs.engine, "cur": D, "req": req, "hdr": hdr, "faults": fmt.Sprint(rs.faults),
+	vo.json = map[string]interface{}{"engine": rs.engine, "metrics_wrapper_above": rs.metrics, "cur": D, "req": req, "hdr": hdr, "faults": fmt.Sprint(rs.faults),
 		"delete_calls": kinds, "removed_positions": rmi, "writers": envJ, "round": roundJ, "reads_changed": vo.changed}
 	for _, f := range rs.faults {
 		vo.outcomes = append(vo.outcomes, "fault-"+f.kind)
 	}
 	if len(executed) > 0 {
 		vo.outcomes = append(vo.outcomes, "interleaved-writers")
+	}
+	if rs.metrics {
+		vo.outcomes = append(vo.outcomes, "metrics-wrapper-above-faulty-engine")
 	}
 	return
 }
@@ -782,15 +806,28 @@ func main() {
 		ndel := outs[ci].variants[0].ndel
 		kinds := outs[ci].variants[0].kinds
 		base := cj.specs[0]
+		nAdded := 0
 		add := func(rs runSpec) {
-			rs.engine, rs.req, rs.R = base.engine, base.req, base.R
-			var ms []int
+			if rs.engine == "" {
+				rs.engine = base.engine
+			}
+			rs.req, rs.R = base.req, base.R
+			ms := rs.roundMode
+			first := map[string]bool{}
+			for _, w := range rs.round {
+				first[string(w.Key)] = true
+			}
 			for _, pi := range r.Perm(len(keyPool)) {
+				if first[keyPool[pi]] {
+					continue
+				}
 				op := []string{"create", "update", "delete"}[r.Intn(3)]
 				rs.round = append(rs.round, lib.CsWrite{Op: op, Key: []byte(keyPool[pi]), Val: []byte(fmt.Sprintf("r%d", r.Intn(100)))})
 				ms = append(ms, r.Intn(40))
 			}
 			rs.roundMode = ms
+			nAdded++
+			rs.metrics = nAdded%2 == 1
 			wg.Add(1)
 			go runOne(ci, rs, false)
 		}
@@ -813,6 +850,21 @@ func main() {
 				add(runSpec{faults: []fault{{i, "cas"}}})
 				break
 			}
+		}
+		// a client Create of a tombstoned key lands exactly before the pass's delete call on that key's index record
+		// (the index compare-and-delete must fail and leave the fresh index); afterwards Update at the true revision
+		// must succeed (first request of the round) and the dump must show index = (c, live); memkv, Badger, TiKV mock
+		nIdx := 0
+		for _, rc := range cj.h.dec {
+			if !rc.Idx || !rc.Del || (base.req == "R" && rc.Rev > base.R) || nIdx >= 3 {
+				continue
+			}
+			eng := []string{lib.EngMem, lib.EngBadger, lib.EngTiKV}[(ci+nIdx)%3]
+			add(runSpec{engine: eng,
+				env:       []envWrite{{idxKey: rc.K, w: lib.CsWrite{Op: "create", Key: rc.K, Val: []byte("c")}}},
+				round:     []lib.CsWrite{{Op: "update", Key: rc.K, Val: []byte("u")}},
+				roundMode: []int{0}})
+			nIdx++
 		}
 		// writers interleaved between the delete calls
 		for e := 0; e < envPer && ndel > 0; e++ {
@@ -876,7 +928,7 @@ func main() {
 		}
 		w.Add(lib.Case{Kind: cj.kind, Coq: coq, JSON: j, Trivial: ndel == 0, Outcomes: oc})
 	}
-	if err := w.Finish("random histories over 8 keys (inside the prefix, under skipped prefixes, outside the prefix) with updates, deletes, re-creations and earlier (failing) compactions, plus two scripted ones, under 6 prefix/skipped-prefix configurations; one case per (history, R) for every revision R of the history, R=0 and R above current; variants: fault-free, delete call #i failing / dying / compare-failing for every i, two failures, writers interleaved between delete calls; distinct = SHA-256 of the Coq case; non-trivial = the pass issued at least one engine delete"); err != nil {
+	if err := w.Finish("random histories over 8 keys (inside the prefix, under skipped prefixes, outside the prefix) with updates, deletes, re-creations and earlier (failing) compactions, plus two scripted ones, under 6 prefix/skipped-prefix configurations; one case per (history, R) for every revision R of the history, R=0 and R above current; variants: fault-free, delete call #i failing / dying / compare-failing for every i, two failures, writers interleaved between delete calls, a client Create of a tombstoned key placed exactly before the delete call on that key's index record (memkv, Badger, TiKV mock; the round then starts with an Update at the true revision); every second fault / interleaving variant runs with the storage metrics wrapper above the failing engine (the production stack); distinct = SHA-256 of the Coq case; non-trivial = the pass issued at least one engine delete"); err != nil {
 		fmt.Fprintln(os.Stderr, err)
 		os.Exit(2)
 	}
